@@ -17,8 +17,8 @@ RULE = ("complete products over explicit alphabets: header fields (version x fla
         "application x identifiers, int and bytes forms; quick = complete pairwise-with-all-flags "
         "product, thorough = full product); generic AVPs code x 256 flag bytes x vendor x data length "
         "0..9 x data form; every dictionary class x every domain value; all AVP sequences of length "
-        "<= 2 (quick) / <= 3 (thorough) over a 12-letter alphabet x 4 construction paths; Grouped "
-        "chains of depth <= 3 / <= 4 with every vendor pattern; typed command classes. A case is one "
+        "<= 3 (quick) / <= 4 (thorough) over a 12-letter alphabet x 4 construction paths; Grouped "
+        "chains of depth <= 3 / <= 5 with every vendor pattern; typed command classes. A case is one "
         "(content, construction path); distinct by construction; non-trivial = has at least one AVP or "
         "a non-default header field")
 ASSUMPTIONS = [
@@ -91,6 +91,9 @@ def check_avp(rep, a, part):
     return obj
 
 
+LENGTHS = list(range(0, 10))
+
+
 def part_generic(rep, arg):
     codes, = arg
     n = 0
@@ -100,7 +103,7 @@ def part_generic(rep, arg):
             for vendor in vendors:
                 if bool(flags & 0x80) != (vendor is not None):
                     continue
-                for ln in range(0, 10):
+                for ln in LENGTHS:
                     data = bytes((i * 37 + ln) % 251 + 1 for i in range(ln))
                     a = Abs.generic(code, flags, vendor, data, "bytes")
                     check_avp(rep, a, "generic")
@@ -348,10 +351,10 @@ def run(report, tier, seed):
     nk = 8 if thorough else 2
     for k in range(nk):
         shards.append(("headers", (tier, k, nk)))
-    nk = 32 if thorough else 4
+    nk = 64 if thorough else 8
     for k in range(nk):
-        shards.append(("sequences", (3 if thorough else 2, k, nk)))
-    shards.append(("nesting", (4 if thorough else 3,)))
+        shards.append(("sequences", (4 if thorough else 3, k, nk)))
+    shards.append(("nesting", (5 if thorough else 3,)))
     shards.append(("typed", None))
     core.run_shards(report, _shard, shards)
     # every class of the library must be in the frozen dictionary (additions are covered or flagged)
